@@ -183,6 +183,17 @@ CHECKS["C16"] = dict(cat="exploration", engine="Rename", ref="§5 C16",
          "the name; outputs of TestHarness::from_sources on a 3-cycle input trace equal; rename-back restores the bytes; rejected requests are keyed by the model's scenario class.",
     note="a refusal is always accepted; an applied rename is rejected only on observable damage; outputs are compared only where the run-time executes the ORIGINAL project cleanly and like the "
          "reference evaluation of the specification's scoping; USING, nested namespaces, inheritance, properties, enum values, dotted new names are not generated; four root-cause findings are listed as open")
+CHECKS["C15"] = dict(cat="exploration", engine="Format", ref="§5 C15",
+    tech="TLA+ Format spec (contract operators + character-level lexical model + reference formatter, model-checked with TLC; two named deviation models shown to violate the invariants) + TLC-exported and seeded random documents x configuration vectors x requests run on the real trust-lsp binary and the web IDE format_source, both texts lexed by the real lexer, every trace validated by TLC against the same contract operators",
+    text="TLC checks TokensPreserved, Idempotent, EditsConfined, OriginsInOrder, KeptLinesVerbatim and OutsideUntouched on the reference formatter for every text `a b` over 69 "
+         "lexical atoms under both spacing styles and every sequence of up to 2 of 21 line templates with and without wrapping, every whole-line range and on-type line, formatted twice; the "
+         "deviations blindGlue and RangeFormatByLineIndex must violate them. TLC exports that input space (pair matrix, layout documents, simulated lines x 9-field configuration "
+         "vector incl. vendor profile x request); a seeded generator adds corpus, mutated, synthetic programs, soups and CRLF texts. Every script is executed against the real language "
+         "server and the web IDE formatter (a dying, failing or silent server is recorded as an event); TLC validates per request that the resulting text has the same non-trivia token "
+         "texts (keywords case-insensitively) and the same comments / pragmas as the source, that every edit holds exactly the tokens of the text it replaces, and that formatting the "
+         "formatted text changes nothing; rejections are keyed by request, path and mechanism read off the failing case.",
+    note="inputs are sampled; BMP characters only and no lone CR; comments compared modulo white space next to line breaks; token kinds reported but not compared; texts with an unterminated "
+         "string literal are exercised but not compared; three open findings (range/on-type by line index after wrapping, wrap idempotence, unterminated comment/pragma tokens)")
 NOT_YET = "check not built yet in this round (see DESIGN.md build order); no claim made"
 
 
@@ -216,6 +227,7 @@ def main():
             "add_only": True,
         },
         "engines": [
+            {"name": "Format", "path": "spec/Format.tla", "serves_properties": ["C15"], "kind_free_text": "TLA+ module + MC instances + trace refinement; harness sub-commands format-gen / format-run driving trust-lsp and WebIdeState::format_source"},
             {"name": "Rename", "path": "spec/Rename.tla", "serves_properties": ["C16"], "kind_free_text": "TLA+ module + MC instances + trace refinement; harness sub-commands rename-gen / rename-run"},
             {"name": "StbcContainer", "path": "spec/StbcContainer.tla", "serves_properties": ["C11"], "kind_free_text": "TLA+ module + MC + trace refinement; harness sub-commands stbc-gen / stbc-run"},
             {"name": "DocSync", "path": "spec/DocSync.tla", "serves_properties": ["C14"], "kind_free_text": "TLA+ module + MC instances + trace refinement; Python harness lib/docsync_harness.py driving the trust-lsp binary"},
